@@ -167,13 +167,20 @@ func (array *Array) NextArray() (*Array, error) {
 // ReverseBy returns the reversed array with the specified step.
 func (array *Array) ReverseBy(step int) *Array {
 	ra := NewArray()
+	if step < 1 {
+		step = 1
+	}
 	l := len(array.msgs)
-	for i := 0; i < l; i += step {
+	// Complete groups are taken from the end; leading messages that do not fill a group keep their place
+	// behind them, so a length that is not a multiple of the step cannot index out of range.
+	i := 0
+	for ; i+step <= l; i += step {
 		for j := 0; j < step; j++ {
 			idx := (l - i - 1) - (step - 1) + j
 			ra.msgs = append(ra.msgs, array.msgs[idx])
 		}
 	}
+	ra.msgs = append(ra.msgs, array.msgs[:l-i]...)
 	return ra
 }
 
